@@ -9,10 +9,18 @@ Definition portdir_ok (c : scfg) : bool :=
   | _, _ => true
   end.
 
+(* rejected since the fix for F14: Paris over IPv6 puts the sequence into the UDP checksum field, which must not be zero *)
+Definition paris6_zero (c : scfg) : bool :=
+  match proto c, multipath c with
+  | Udp, Paris => is_v6 (target_addr c) && (initial_sequence c =? 0)
+  | _, _ => false
+  end.
+
 Definition builder_accepts (c : scfg) : bool :=
   portdir_ok c &&
   (1 <=? first_ttl c) && (first_ttl c <=? MAX_TTL) && (max_ttl c <=? MAX_TTL) &&
-  (initial_sequence c <=? MAX_INITIAL_SEQUENCE).
+  (initial_sequence c <=? MAX_INITIAL_SEQUENCE) &&
+  negb (paris6_zero c).
 
 (* every field lies in the range of its Rust type *)
 Definition u8 (x : Z) : Prop := 0 <= x < 256.
